@@ -62,10 +62,10 @@ impl<'a, P: Pe<'a>> Exception<'a, P> {
 	pub fn index_of(&self, pc: Rva) -> std::result::Result<usize, usize> {
 		self.image.binary_search_by(|rf| {
 			if pc < rf.BeginAddress {
-				Ordering::Less
-			}
-			else if pc > rf.EndAddress {
 				Ordering::Greater
+			}
+			else if pc >= rf.EndAddress {
+				Ordering::Less
 			}
 			else {
 				Ordering::Equal
